@@ -28,6 +28,16 @@ Check c12_same_value_same_parse_data : forall v w1 w2 r1 r2,
   exists u1 u2, parse (w1 ++ r1) = ROk r1 v u1 /\ parse (w2 ++ r2) = ROk r2 v u2.
 Print Assumptions c12_same_value_same_parse_data.
 
+(* the same for every response kind the round-trip theorem reaches (Spec.enc_response: FETCH, numeric data, VANISHED,
+   QUOTA, STATUS, LIST/LSUB, SEARCH/SORT, CAPABILITY, ENABLED, QUOTAROOT, MYRIGHTS, ACL, LISTRIGHTS, status responses,
+   tagged completions, continuation requests) *)
+Theorem c12_same_value_same_parse_any : forall v w1 w2 r1 r2, enc_response v w1 -> enc_response v w2 ->
+  parse (w1 ++ r1) = ROk r1 v (nlen w1) /\ parse (w2 ++ r2) = ROk r2 v (nlen w2).
+Proof. exact same_value_same_parse_any. Qed.
+Check c12_same_value_same_parse_any : forall v w1 w2 r1 r2, enc_response v w1 -> enc_response v w2 ->
+  parse (w1 ++ r1) = ROk r1 v (nlen w1) /\ parse (w2 ++ r2) = ROk r2 v (nlen w2).
+Print Assumptions c12_same_value_same_parse_any.
+
 (* the individual freedoms, at the parser functions where they arise *)
 Theorem c12_keyword_case : forall s w d, same_nocase s w = true -> Ok native_call env rk (Leaf (LTagNC s)) d w (VBytes w) any.
 Proof. intros s w d H. apply ok_tag_nc, H. Qed.
